@@ -2,6 +2,7 @@ package main
 
 import (
 	"fmt"
+	"regexp"
 	"go/constant"
 	"go/types"
 	"math"
@@ -669,5 +670,8 @@ func typeName(t types.Type) string {
 		}
 		return p.Name()
 	})
-	return s
+	return reAny.ReplaceAllString(s, "interface{}")
 }
+
+var reAny = regexp.MustCompile(`\bany\b`)
+
